@@ -7,7 +7,7 @@ import GV.Lib.CborBytes
   * `wf_consumes_le`   `wfItem b = ok n → 0 < n ∧ n ≤ b.length`
   * `wf_unique`        `wfItem b = ok n → wfItem (b.take n ++ r) = ok n`
   * `wf_prefix`        `wfItem b = ok n → k < n → wfItem (b.take k) = needMore`
-  * `children_tile`    header + children (+ break) tile the item exactly
+  * `children_tile`    (in GV/Proofs/CborTile.lean) header + children (+ break) tile the item exactly
 -/
 namespace GV.Cbor
 
@@ -82,6 +82,16 @@ theorem readHead_take_short {rest : Bytes} {m a v h k : Nat} (hh : readHead rest
 
 /-! ### one step -/
 
+theorem actionCore_leaf_ge {m a v h len : Nat} (hact : actionCore m a v h = .leaf len) : h ≤ len := by
+  unfold actionCore at hact
+  repeat' split at hact
+  all_goals first | (cases hact; omega) | cases hact
+
+theorem actionCore_ne_brk (m a v h : Nat) : actionCore m a v h ≠ .brk := by
+  unfold actionCore
+  repeat' split
+  all_goals simp
+
 theorem action_leaf_ge {top : Option Frame} {m a v h len : Nat}
     (hact : action top m a v h = .leaf len) : h ≤ len := by
   unfold action at hact
@@ -93,8 +103,9 @@ theorem action_leaf_ge {top : Option Frame} {m a v h len : Nat}
       · split at hact
         · cases hact; omega
         · cases hact
-    · repeat' split at hact
-      all_goals first | cases hact; omega | cases hact
+    · split at hact
+      · split at hact <;> cases hact
+      · exact actionCore_leaf_ge hact
 
 /-- A step that makes progress is determined by the head and needs only `c` bytes. -/
 theorem step_progress {rest : Bytes} {st : Stack} {s : Step} {c : Nat}
